@@ -246,6 +246,12 @@ Lemma winner_removes {K : Type} (keqb : K -> K -> bool) (h : Z -> Z -> K) (s : a
   as_won (att_step keqb h s (AoProcess sn ord)) = Some w.
 Proof. intros H V. unfold att_step. now rewrite H, V. Qed.
 
+Lemma process_weighs_all {K : Type} (keqb : K -> K -> bool) (h : Z -> Z -> K) (s : att_state) sn ord :
+  as_won s = None ->
+  as_won (att_step keqb h s (AoProcess sn ord)) =
+  match verify_evidence keqb (code_key h) ord sn (map ev_of (as_evs s)) with Winner w => Some w | _ => None end.
+Proof. intros H. unfold att_step. rewrite H. destruct (verify_evidence _ _ _ _ _); cbn [as_won]; auto. Qed.
+
 (** Non-vacuity: three equal validators; 1 answers a, 2 answers b: the run removes nothing; a proof-less
     submission of 3 is refused; 2 corrects itself to a: the next run removes the request with a. *)
 Example history_removes_after_resubmission :
